@@ -1385,6 +1385,445 @@ theorem noLeak_run (ops : List Op) : ∀ {s : State}, NoLeakLog s → NoLeakLog 
   | nil => intro s h; exact h
   | cons o ops ih => intro s h; exact ih (noLeak_step h o)
 
+/-! ### C08: nothing is left behind -/
+
+/-- no socket descriptor appears: every socket open in `s'` is the same open socket in `s` -/
+def NS (s s' : State) : Prop := ∀ fd d, s'.fdt.get fd = some d → d.kind = .sock → s.fdt.get fd = some d
+
+theorem NS.refl (s : State) : NS s s := fun _ _ h _ => h
+
+theorem NS.trans {a b c : State} (h1 : NS a b) (h2 : NS b c) : NS a c :=
+  fun fd d h hk => h1 fd d (h2 fd d h hk) hk
+
+theorem alloc_other_NS (s : State) (b : Bool) : NS s (alloc s (otherDesc b)).1 := by
+  intro fd d h hk
+  simp only [alloc] at h
+  by_cases e : fd = s.fdt.lowestFree
+  · subst e
+    rw [FdTable.get_put_self _ _ _ (FdTable.lowestFree_le_length _)] at h
+    cases h
+    simp [otherDesc] at hk
+  · rwa [FdTable.get_put_ne _ _ _ _ e (FdTable.lowestFree_le_length _)] at h
+
+theorem closeFds_NS (s : State) (fds : List Nat) : NS s (closeFds s fds) := by
+  intro fd d h _
+  simp only [closeFds, FdTable.get_closeAll] at h
+  split at h
+  · cases h
+  · exact h
+
+/-- the same up to the per-worker `so_reuseport` sockets `T` -/
+def NST (T : List Nat) (s s' : State) : Prop :=
+  ∀ fd d, s'.fdt.get fd = some d → d.kind = .sock → s.fdt.get fd = some d ∨ fd ∈ T
+
+theorem reuse_fold_NST (cmd : Str) (s0 : State) (l : List Sock) : ∀ a : Attempt, NST a.temp s0 a.s →
+    NST (l.foldl (reuseStep cmd) a).temp s0 (l.foldl (reuseStep cmd) a).s := by
+  induction l with
+  | nil => intro a h; exact h
+  | cons k l ih =>
+    intro a h
+    rw [List.foldl_cons]
+    apply ih
+    unfold reuseStep
+    split
+    · intro fd d hg hk
+      simp only [newBoundSocket] at hg
+      by_cases e : fd = a.s.fdt.lowestFree
+      · right; simp [e, newBoundSocket]
+      · rw [FdTable.get_put_ne _ _ _ _ e (FdTable.lowestFree_le_length _)] at hg
+        rcases h fd d hg hk with h1 | h1
+        · exact Or.inl h1
+        · exact Or.inr (by simp [h1])
+    · exact h
+
+theorem allocPipes_NS (s : State) (out err : Bool) : NS s (allocPipes s out err).1 := by
+  have hp : ∀ s : State, NS s (allocPipe s).1 := fun s =>
+    (alloc_other_NS s false).trans (alloc_other_NS _ false)
+  cases out <;> cases err
+  · exact NS.refl s
+  · exact hp s
+  · exact hp s
+  · exact (hp s).trans (hp _)
+
+theorem trySpawn_NS (s : State) (wi : Nat) (w : Watcher) (wid : Nat) : NS s (trySpawn s wi w wid).1 := by
+  have hf : NST (getSocketsFds s w).temp s (getSocketsFds s w).s := by
+    unfold getSocketsFds
+    exact reuse_fold_NST _ _ _ _ (fun fd d h _ => Or.inl h)
+  -- once the per-worker sockets are closed again nothing new is left
+  have hclose : ∀ s1 : State, NS (getSocketsFds s w).s s1 → NS s (closeFds s1 (getSocketsFds s w).temp) := by
+    intro s1 h1 fd d hg hk
+    simp only [closeFds, FdTable.get_closeAll] at hg
+    split at hg
+    · cases hg
+    · rename_i hnot
+      rcases hf fd d (h1 fd d hg hk) hk with h2 | h2
+      · exact h2
+      · exact absurd h2 hnot
+  unfold trySpawn
+  simp only []
+  cases formatArgv (getSocketsFds s w).fds (watcherCmd w) w.args with
+  | error e => exact hclose _ (NS.refl _)
+  | ok argv =>
+    simp only []
+    have hp := allocPipes_NS (getSocketsFds s w).s w.pipeOut w.pipeErr
+    generalize allocPipes (getSocketsFds s w).s w.pipeOut w.pipeErr = x at hp
+    obtain ⟨s1, rfds, wfds⟩ := x
+    simp only [] at hp ⊢
+    cases stdinDesc s1 w with
+    | error e => exact hclose _ (hp.trans (closeFds_NS _ _))
+    | ok fd0 =>
+      simp only []
+      have := hclose _ (hp.trans (closeFds_NS s1 wfds))
+      exact this
+
+theorem spawnLoop_NS (n : Nat) : ∀ (s : State) (wi : Nat) (w : Watcher) (wid : Nat),
+    NS s (spawnLoop n s wi w wid).1 := by
+  induction n with
+  | zero => intro s wi w wid; exact NS.refl s
+  | succ n ih =>
+    intro s wi w wid
+    have h1 := trySpawn_NS s wi w wid
+    unfold spawnLoop
+    generalize trySpawn s wi w wid = x at h1
+    obtain ⟨s1, b⟩ := x
+    cases b
+    · exact h1
+    · exact h1.trans (ih s1 wi w wid)
+    · exact h1
+
+theorem spawnProcess_NS (s : State) (wi : Nat) : NS s (spawnProcess s wi).1 := by
+  unfold spawnProcess
+  split
+  · exact NS.refl s
+  · split
+    · exact NS.refl s
+    · exact spawnLoop_NS _ _ _ _ _
+
+theorem spawnN_NS (n : Nat) : ∀ (s : State) (wi : Nat), NS s (spawnN n s wi) := by
+  induction n with
+  | zero => intro s wi; exact NS.refl s
+  | succ n ih =>
+    intro s wi
+    have h1 := spawnProcess_NS s wi
+    unfold spawnN
+    generalize spawnProcess s wi = x at h1
+    obtain ⟨s1, r⟩ := x
+    cases r
+    · exact h1.trans (ih s1 wi)
+    · exact h1
+    · exact h1
+
+theorem spawnAll_NS (n : Nat) : ∀ (s : State) (wi : Nat), NS s (spawnAll n s wi).1 := by
+  induction n with
+  | zero => intro s wi; exact NS.refl s
+  | succ n ih =>
+    intro s wi
+    have h1 := spawnProcess_NS s wi
+    unfold spawnAll
+    generalize spawnProcess s wi = x at h1
+    obtain ⟨s1, r⟩ := x
+    cases r
+    · exact h1.trans (ih s1 wi)
+    · exact h1.trans (ih s1 wi)
+    · exact h1
+
+theorem reapProc_NS (s : State) (p : Proc) : NS s (reapProc s p) := closeFds_NS s p.pipeFds
+
+theorem reapAll_NS (ps : List Proc) : ∀ s : State, NS s (reapAll s ps) := by
+  induction ps with
+  | nil => intro s; exact NS.refl s
+  | cons p ps ih =>
+    intro s
+    unfold reapAll
+    rw [List.foldl_cons]
+    exact (reapProc_NS s p).trans (ih _)
+
+theorem manage_NS (s : State) (wi : Nat) : NS s (manage s wi) := by
+  unfold manage
+  simp only []
+  split
+  · exact reapAll_NS _ _
+  · exact spawnN_NS _ _ _
+
+theorem step_NS (s : State) (o : Op) (h1 : o ≠ .initialize) (h2 : o ≠ .stop)
+    (h3 : ∀ new d a, o ≠ .reloadSockets new d a) : NS s (step s o) := by
+  match o, h1, h2, h3 with
+  | .initialize, h1, _, _ => exact absurd rfl h1
+  | .stop, _, h2, _ => exact absurd rfl h2
+  | .reloadSockets new d a, _, _, h3 => exact absurd rfl (h3 new d a)
+  | .spawn w, _, _, _ => exact spawnProcess_NS s w
+  | .die i, _, _, _ =>
+    simp only [step]
+    split
+    · exact reapProc_NS _ _
+    · exact NS.refl s
+  | .restart w, _, _, _ =>
+    simp only [step]
+    exact (reapAll_NS _ s).trans (spawnN_NS _ _ _)
+  | .reload w, _, _, _ =>
+    simp only [step]
+    have h1 := spawnAll_NS (npOf s w) s w
+    generalize spawnAll (npOf s w) s w = x at h1
+    obtain ⟨s1, b⟩ := x
+    cases b
+    · exact h1.trans (manage_NS _ _)
+    · exact h1
+  | .incr w k, _, _, _ =>
+    simp only [step]
+    exact NS.trans (fun _ _ h _ => h) (manage_NS _ _)
+  | .decr w k, _, _, _ =>
+    simp only [step]
+    exact NS.trans (fun _ _ h _ => h) (manage_NS _ _)
+  | .openOther inh, _, _, _ =>
+    simp only [step]
+    exact alloc_other_NS s inh
+  | .closeOther i, _, _, _ =>
+    simp only [step]
+    split
+    · exact closeFds_NS _ _
+    · exact NS.refl s
+
+/-- every socket descriptor that is open belongs to a socket object of the dict -/
+def Orph (s : State) : Prop :=
+  ∀ fd d, s.fdt.get fd = some d → d.kind = .sock → ∃ k ∈ s.socks, k.fd = some fd
+
+/-- every unix-socket file the daemon made and that still exists is the path of a socket of the dict -/
+def FilesInv (s : State) : Prop :=
+  ∀ p ∈ s.files, p ∈ s.made → ∃ k ∈ s.socks, k.unix = true ∧ k.addr = p
+
+structure Tidy (s : State) : Prop where
+  orph : Orph s
+  files : FilesInv s
+
+theorem tidy_initialize {s : State} (h : Tidy s) : Tidy (step s .initialize) := by
+  have a := bindAll_facts s.socks s
+  have key : ∀ s1 : State, s1.fdt = (bindAndListenAll s s.socks).1.fdt → s1.socks = s.socks →
+      s1.files = (bindAndListenAll s s.socks).1.files → s1.made = (bindAndListenAll s s.socks).1.made → Tidy s1 := by
+    intro s1 hf hs hfi hm
+    constructor
+    · intro fd d hg hk
+      rw [hf] at hg
+      obtain ⟨d0, g0, k0⟩ := a.rev fd d hg
+      rw [hs]
+      exact h.orph fd d0 g0 (by rw [k0, hk])
+    · intro p hp hmade
+      rw [hfi] at hp
+      rw [hm] at hmade
+      rw [hs]
+      rcases a.files p hp with h1 | h1
+      · rcases a.made p hmade with h2 | h2
+        · exact h.files p h1 h2
+        · exact h2
+      · exact h1
+  simp only [step]
+  generalize bindAndListenAll s s.socks = x at a key
+  obtain ⟨s1, e⟩ := x
+  cases e with
+  | some _ => exact key s1 rfl a.same.1 rfl rfl
+  | none => exact key _ rfl a.same.1 rfl rfl
+
+/-- `stop`: no socket descriptor is open and no file the daemon ever made exists -/
+theorem stop_clean {s : State} (h : Tidy s) :
+    (∀ fd d, (step s .stop).fdt.get fd = some d → d.kind ≠ .sock) ∧
+    (∀ p ∈ (step s .stop).made, p ∉ (step s .stop).files) ∧
+    (step s .stop).made = s.made := by
+  refine ⟨?_, ?_, ?_⟩
+  · intro fd d hg hk
+    simp only [step, closeAllSocks] at hg
+    have h0 := get_foldl_closeObj_rev _ _ _ _ hg
+    obtain ⟨k, hk', hfd⟩ := h.orph fd d h0 hk
+    rw [get_foldl_closeObj_mem _ _ _ ⟨k, hk', hfd⟩] at hg
+    cases hg
+  · intro p hm hp
+    simp only [step, closeAllSocks] at hm hp
+    rw [(foldl_closeObj_same s.socks s).2.2.2.2.2.2] at hm
+    obtain ⟨h1, h2⟩ := files_foldl_closeObj _ _ _ hp
+    obtain ⟨k, hk, hu, ha⟩ := h.files p h1 hm
+    exact h2 k hk hu ha
+  · simp only [step, closeAllSocks]
+    exact (foldl_closeObj_same s.socks s).2.2.2.2.2.2
+
+theorem tidy_stop {s : State} (h : Tidy s) : Tidy (step s .stop) := by
+  obtain ⟨h1, h2, _⟩ := stop_clean h
+  exact ⟨fun fd d hg hk => absurd hk (h1 fd d hg), fun p hp hm => absurd hp (h2 p hm)⟩
+
+theorem tidy_delSock {s : State} (h : Tidy s) (n : Str) : Tidy (delSock s n) := by
+  unfold delSock
+  split
+  · exact h
+  · rename_i k hfind
+    constructor
+    · intro fd d hg hk
+      simp only [] at hg ⊢
+      rw [closeObj_get] at hg
+      split at hg
+      · cases hg
+      · rename_i hne
+        obtain ⟨k', hk', hfd⟩ := h.orph fd d hg hk
+        have : k' ≠ k := fun e => hne (e ▸ hfd)
+        exact ⟨k', (List.mem_erase_of_ne this).2 hk', hfd⟩
+    · intro p hp hm
+      simp only [] at hp hm ⊢
+      have hp' : p ∈ s.files ∧ (k.unix = true → k.addr ≠ p) := by
+        unfold closeObj at hp
+        simp only [] at hp
+        by_cases hu : k.unix = true
+        · simp only [hu, if_true] at hp
+          obtain ⟨m, hne⟩ := List.mem_filter.1 hp
+          exact ⟨m, fun _ e => by simp [e] at hne⟩
+        · simp only [hu, Bool.false_eq_true, if_false] at hp
+          exact ⟨hp, fun e => absurd e hu⟩
+      have hm' : p ∈ s.made := by simpa [closeObj] using hm
+      obtain ⟨k', hk', hu, ha⟩ := h.files p hp'.1 hm'
+      have : k' ≠ k := fun e => hp'.2 (e ▸ hu) (e ▸ ha)
+      exact ⟨k', (List.mem_erase_of_ne this).2 hk', hu, ha⟩
+
+theorem tidy_addSock {s : State} (h : Tidy s) (k : Spec) : Tidy (addSock s k).1 := by
+  unfold addSock
+  simp only []
+  have hle := FdTable.lowestFree_le_length s.fdt
+  -- after `socket()`: one more socket descriptor
+  have hal : ∀ fd d, (alloc s newSocketDesc).1.fdt.get fd = some d → d.kind = .sock →
+      fd = s.fdt.lowestFree ∨ s.fdt.get fd = some d := by
+    intro fd d hg _
+    simp only [alloc] at hg
+    by_cases e : fd = s.fdt.lowestFree
+    · exact Or.inl e
+    · rw [FdTable.get_put_ne _ _ _ _ e hle] at hg
+      exact Or.inr hg
+  have b := bindAndListen_facts (alloc s newSocketDesc).1 k (some (alloc s newSocketDesc).2)
+  generalize bindAndListen (alloc s newSocketDesc).1 k (some (alloc s newSocketDesc).2) = x at b
+  obtain ⟨s2, e⟩ := x
+  simp only [] at b
+  have hsocks : s2.socks = s.socks := b.same.1
+  have horph : ∀ fd d, s2.fdt.get fd = some d → d.kind = .sock →
+      fd = s.fdt.lowestFree ∨ ∃ k' ∈ s.socks, k'.fd = some fd := by
+    intro fd d hg hk
+    obtain ⟨d0, g0, k0⟩ := b.rev fd d hg
+    rcases hal fd d0 g0 (by rw [k0, hk]) with h1 | h1
+    · exact Or.inl h1
+    · exact Or.inr (h.orph fd d0 h1 (by rw [k0, hk]))
+  cases e with
+  | some err =>
+    simp only []
+    constructor
+    · intro fd d hg hk
+      simp only [closeFds, FdTable.get_closeAll] at hg
+      split at hg
+      · cases hg
+      · rename_i hnot
+        rcases horph fd d hg hk with h1 | h1
+        · exact absurd (by simp [h1, alloc]) hnot
+        · simpa [closeFds, hsocks] using h1
+    · intro p hp hm
+      simp only [closeFds] at hp hm ⊢
+      rw [hsocks]
+      rcases b.files p hp with h1 | ⟨h1, _, _⟩
+      · rcases b.made p hm with h2 | ⟨h2, _, _⟩
+        · exact h.files p h1 h2
+        · cases h2
+      · cases h1
+  | none =>
+    simp only []
+    constructor
+    · intro fd d hg hk
+      simp only [] at hg ⊢
+      rcases horph fd d hg hk with h1 | ⟨k', hk', hfd⟩
+      · exact ⟨{ toSpec := k, fd := some (alloc s newSocketDesc).2 }, by simp, by simp [h1, alloc]⟩
+      · exact ⟨k', by simp [hsocks, hk'], hfd⟩
+    · intro p hp hm
+      simp only [] at hp hm ⊢
+      rcases b.files p hp with h1 | ⟨_, hu, ha⟩
+      · rcases b.made p hm with h2 | ⟨_, hu, ha⟩
+        · obtain ⟨k', hk', r⟩ := h.files p h1 h2
+          exact ⟨k', by simp [hsocks, hk'], r⟩
+        · exact ⟨{ toSpec := k, fd := some (alloc s newSocketDesc).2 }, by simp, hu, ha.symm⟩
+      · exact ⟨{ toSpec := k, fd := some (alloc s newSocketDesc).2 }, by simp, hu, ha.symm⟩
+
+theorem tidy_addLoop (new : List Spec) (ns : List Str) : ∀ {s : State}, Tidy s → Tidy (addLoop new s ns) := by
+  induction ns with
+  | nil => intro s h; exact h
+  | cons n ns ih =>
+    intro s h
+    unfold addLoop
+    split
+    · exact ih h
+    · rename_i k _
+      have a := tidy_addSock h k
+      generalize addSock s k = x at a
+      obtain ⟨s1, e⟩ := x
+      cases e with
+      | some _ => exact a
+      | none => exact ih a
+
+theorem tidy_reload {s : State} (h : Tidy s) (new : List Spec) (d a : List Str) :
+    Tidy (reloadSockets s new d a) := by
+  unfold reloadSockets
+  simp only []
+  apply tidy_addLoop
+  generalize reorder d _ = l
+  induction l generalizing s with
+  | nil => exact h
+  | cons n l ih => rw [List.foldl_cons]; exact ih (tidy_delSock h n)
+
+theorem tidy_step {s : State} (h : Tidy s) (o : Op) : Tidy (step s o) := by
+  by_cases h1 : o = .initialize
+  · subst h1; exact tidy_initialize h
+  · by_cases h2 : o = .stop
+    · subst h2; exact tidy_stop h
+    · by_cases h3 : ∃ new d a, o = .reloadSockets new d a
+      · obtain ⟨new, d, a, rfl⟩ := h3
+        exact tidy_reload h new d a
+      · have h3' : ∀ new d a, o ≠ .reloadSockets new d a := fun n d a e => h3 ⟨n, d, a, e⟩
+        have r := step_R (trivProt s) o h1 h2 h3'
+        have ns := step_NS s o h1 h2 h3'
+        constructor
+        · intro fd d hg hk
+          rw [r.socks]
+          exact h.orph fd d (ns fd d hg hk) hk
+        · intro p hp hm
+          rw [r.socks]
+          rw [r.files] at hp
+          rw [r.made] at hm
+          exact h.files p hp hm
+
+theorem tidy_run (ops : List Op) : ∀ {s : State}, Tidy s → Tidy (run s ops) := by
+  induction ops with
+  | nil => intro s h; exact h
+  | cons o ops ih => intro s h; exact ih (tidy_step h o)
+
+/-- the process that becomes the daemon holds no socket of its own in `t0` -/
+def NoSock (t : FdTable) : Prop := ∀ fd d, t.get fd = some d → d.kind = .other
+
+theorem tidy_setup (t0 : FdTable) (specs : List Spec) (ws : List Watcher) (f0 : List Nat) (h : NoSock t0) :
+    Tidy (setup t0 specs ws f0) := by
+  unfold setup
+  have base : ∀ (l : List Spec) (s : State), Orph s → s.made = [] →
+      Orph (l.foldl mkSocket s) ∧ (l.foldl mkSocket s).made = [] := by
+    intro l
+    induction l with
+    | nil => intro s h1 h2; exact ⟨h1, h2⟩
+    | cons k l ih =>
+      intro s h1 h2
+      rw [List.foldl_cons]
+      apply ih
+      · intro fd d hg hk
+        simp only [mkSocket, alloc] at hg ⊢
+        by_cases e : fd = s.fdt.lowestFree
+        · exact ⟨{ toSpec := k, fd := some s.fdt.lowestFree }, by simp, by simp [e]⟩
+        · rw [FdTable.get_put_ne _ _ _ _ e (FdTable.lowestFree_le_length _)] at hg
+          obtain ⟨k', hk', hfd⟩ := h1 fd d hg hk
+          exact ⟨k', by simp [hk'], hfd⟩
+      · simpa [mkSocket, alloc] using h2
+  obtain ⟨h1, h2⟩ := base specs
+    { fdt := t0, nextId := 1, nextBind := 1, socks := [], watchers := ws, procs := [], nextPid := 1, others := [],
+      phase := .fresh, log := [], files := f0, made := [] }
+    (fun fd d hg hk => by
+      have := h fd d hg
+      rw [this] at hk
+      cases hk) rfl
+  exact ⟨h1, fun p _ hm => by rw [h2] at hm; simp at hm⟩
+
 /-! ### the substitution table -/
 
 /-- no two sockets of the dict have names that differ only by letter case -/
